@@ -69,6 +69,26 @@ func corpus() []string {
 		"\"\u0600\\\"\"", "[\"\u0600\\\\\", 1]", "{\"\u0600\\\"\":\"\u06dd\\\\\"}", "\"\u0600\\n\u070f\\u0041\"", "\"e\u0301\\\"\u200d\\\\\"",
 		`{"a":"b","c":{"d":["e",{"f":null}]}}`,
 	}
+	// size dimension: element / member counts and nesting depths that cross the usual boundaries
+	for _, n := range []int{15, 16, 17, 255, 256, 257, 1023, 1024, 1025, 4095, 4096, 4097, 9999, 10000, 10001, 65535, 65536, 65537} {
+		docs = append(docs, "["+strings.TrimSuffix(strings.Repeat("[1,2],", n), ",")+"]")
+		if n <= 10001 {
+			docs = append(docs, "["+strings.TrimSuffix(strings.Repeat(`{"a":[]},`, n), ",")+"]")
+			var sb strings.Builder
+			sb.WriteString("{")
+			for i := 0; i < n; i++ {
+				if i > 0 {
+					sb.WriteString(",")
+				}
+				fmt.Fprintf(&sb, `"k%d":[%d]`, i, i)
+			}
+			sb.WriteString("}")
+			docs = append(docs, sb.String())
+		}
+	}
+	for _, n := range []int{127, 128, 129, 255, 256, 257, 1000} {
+		docs = append(docs, strings.Repeat("[", n)+strings.Repeat("]", n), strings.Repeat(`{"a":[`, n/2)+"1"+strings.Repeat("]}", n/2))
+	}
 	docs = append(docs, strings.Repeat("[", 64)+strings.Repeat("]", 64))
 	docs = append(docs, strings.Repeat(`{"a":`, 32)+"1"+strings.Repeat("}", 32))
 	docs = append(docs, "1"+strings.Repeat("0", 80))                   // 81-digit integer: exactly representable in 512 bits
@@ -89,7 +109,7 @@ func gen(tier string, emit func(engine.Case) bool) {
 		if !emit(mk(b)) {
 			return
 		}
-		if len(b) > 200 && tier != "thorough" {
+		if len(b) > 200 && (tier != "thorough" || len(b) > 2000) {
 			continue
 		}
 		if len(b) <= 60 {
@@ -526,7 +546,7 @@ func main() {
 		ID:        "C13",
 		Title:     "The JSON syntax accepts exactly JSON and maps literals faithfully",
 		Technique: "bounded exhaustive enumeration of byte strings and single-byte edits, differential against an independent RFC 8259 recogniser/decoder",
-		Rule: "all byte strings of length <= 4 (quick) / <= 5 (thorough) over a 37-byte JSON-relevant alphabet (incl. VT, FF); a corpus of grammar-generated documents with every single-byte delete/insert/replace and every insertion of 11 multi-byte non-JSON separators (Unicode spaces, BOM, comments); all template-relevant strings of length <= 3/4 as JSON strings and object keys. " +
+		Rule: "all byte strings of length <= 4 (quick) / <= 5 (thorough) over a 37-byte JSON-relevant alphabet (incl. VT, FF); a corpus of grammar-generated documents with every single-byte delete/insert/replace and every insertion of 11 multi-byte non-JSON separators (Unicode spaces, BOM, comments); documents with 15..65537 arrays / objects / members and nesting depths up to 1000 (unedited); all template-relevant strings of length <= 3/4 as JSON strings and object keys. " +
 			"Each is run through json.ParseExpression, json.Parse, Value(nil) and Value(ctx). Non-trivial = the text is accepted; distinct = distinct (literal value, template-mode value) observations.",
 		Assumptions: []string{"go-cty number parsing/conversion, encoding/json.Valid and unicode/utf8 are trusted (used to cross-check the reference recogniser)", "hclsyntax.ParseTemplate is the oracle for template-mode strings, as the property states"},
 		Gen:         gen,
